@@ -19,6 +19,7 @@ import (
 // c04state drives the semi-honest side of C04: a real client for the
 // off-chain protocol plus an adversary that registers outdated signed states.
 type c04state struct {
+	slowStarted bool // the slow sub-channel decision was started
 	p           *pair
 	adv, honest int
 
@@ -72,6 +73,30 @@ func (c *c04state) advRegister(step int, st *kernel.Step) {
 	}
 	if old == nil {
 		return
+	}
+	if ms := p.s.Sc.Cfg("slow_sub_update_ms", 0); ms > 0 && !c.slowStarted {
+		// an update of an open sub-channel is pending at the honest side, whose
+		// user takes seconds to decide: the sub-channel's machine lock is held
+		// while the dispute starts
+		for k := range p.subs {
+			if si := &p.subs[k]; !si.closed {
+				c.slowStarted = true
+				p.mu.Lock()
+				if p.slowNext == nil {
+					p.slowNext = map[string]time.Duration{}
+				}
+				p.slowNext[p.n[c.honest].Name] = time.Duration(ms) * time.Millisecond
+				p.mu.Unlock()
+				p.wg.Add(1)
+				go func() {
+					defer p.wg.Done()
+					p.pay(step, si.chans[c.adv], c.adv, 1, 30*time.Second, false)
+				}()
+				time.Sleep(2*time.Millisecond + p.s.Delay("adv:slow-sub-gap", 0, time.Millisecond))
+				p.s.Count("fault.slow_decision_on_sub_update", 1)
+				break
+			}
+		}
 	}
 	ch := p.chans[0][c.adv]
 	req := channel.AdjudicatorReq{Params: ch.Params(), Acc: p.n[c.adv].Acc.AccMap, Idx: ch.Idx(),
@@ -130,7 +155,13 @@ func (c *c04state) honestSettle(ch *client.Channel) {
 		// the channel tree may fail; the user repeats it (see C03)
 		var err error
 		for attempt := 0; attempt < 8; attempt++ {
-			err = ch.Settle(ctx, false)
+			actx, acancel := ctx, context.CancelFunc(func() {})
+			if p.s.Sc.Cfg("short_settle_ctx", 0) == 1 && attempt < 3 {
+				// an impatient user: the first attempts get 300 ms each
+				actx, acancel = context.WithTimeout(ctx, 300*time.Millisecond+p.s.Delay("ctx:short-settle", 0, time.Millisecond))
+			}
+			err = ch.Settle(actx, false)
+			acancel()
 			p.s.Event(p.n[c.honest].Name, "driver:settle", fmt.Sprintf("honest attempt %d err=%v", attempt, err))
 			if err == nil || ctx.Err() != nil {
 				break
